@@ -22,8 +22,8 @@ SPEC = {
     "C11": [("MD.Props.C11", None)],
     "C12": [("MD.Props.C12", None)],
     "C13": [("MD.Props.C13", None)],
-    "C14": [("MD.Props.C14", None)],
-    "C15": [("MD.Props.C15", None)],
+    "C14": [("MD.Props.C14", None), ("MD.Props.C04_HES", "re:C14_"), ("MD.Props.C04_HQS", "re:C14_")],
+    "C15": [("MD.Props.C15", None), ("MD.Proofs.ElemIntegral", None)],
     "C16": [("MD.Props.C16", None)],
     "C17": [("MD.Props.C17", None)],
     "C18": [("MD.Props.C18", None)],
@@ -67,6 +67,8 @@ for pid, parts in SPEC.items():
         mods.append(module)
         if names is None:
             thms.extend(ths)
+        elif isinstance(names, str) and names.startswith("re:"):
+            thms.extend(t for t in ths if re.search(names[3:], t["name"]))
         else:
             thms.extend({"name": n, "kind": "full"} for n in names)
     if not mods:
